@@ -152,6 +152,38 @@ def check_blocked_quit(run, case, tier='quick'):
                 os.remove(os.path.join(repo.scratch(), f))
         repo.drop_rules(name)
 
+def check_big_queue_status(run, case):
+    """Status requests while the queue holds tens of thousands of pre-terminals (the ruleset of C01's big-queue case): whatever the status report looks at, it
+    looks at it while the generation loop keeps popping and pushing.  The stream with requests is the stream without."""
+    from . import c01
+    import random
+    rng = random.Random(case['hseed'])
+    big = c01.big_queue_case(rng)
+    name, path = gstream.materialise(big['spec'], 'c12q')
+    sn = session.new_session_name('c12q')
+    try:
+        n = str(case['n'])
+        ref, err, rc, to = cli.run_cli('pcfg_guesser.py', ['-r', name, '-s', sn, '-n', n], stdin_mode='devnull', timeout=300, max_out=64 << 20)
+        run.ev('cli_runs')
+        if to or ref.count(10) != case['n']:
+            run.inconc('big-queue reference run did not complete'); return
+        for attempt in range(2):
+            reqs = [(0.6 if k == 0 else rng.choice([0.02, 0.05, 0.11]), rng.choice([b'\n', b'\n', b'h\n'])) for k in range(40)]
+            out, err, rc, to = cli.run_cli('pcfg_guesser.py', ['-r', name, '-s', sn + 'r', '-n', n], stdin_mode='timed', data=reqs, timeout=300, max_out=64 << 20)
+            run.ev('cli_runs'); run.ev('big_queue_status_runs'); run.add_to_set('stdin_conditions', 'status requests with more than 50 000 pre-terminals queued')
+            if to:
+                run.inconc('big-queue run: watchdog'); continue
+            answered = err.count(b'Status Report') + err.count(b'Help')
+            run.ev('status_reports_answered_with_a_big_queue', answered)
+            if out != ref:
+                k = next((i for i, (a, b) in enumerate(zip(out, ref)) if a != b), min(len(out), len(ref)))
+                run.violation(f'status / help requests while more than 50 000 pre-terminals were queued changed the stream: {out.count(10)} lines of {ref.count(10)} (first difference in line {out[:k].count(10) + 1}; '
+                              f'{answered} requests had been answered)', case, observed={'stderr_tail': err[-300:].decode('utf-8', 'replace')}); return
+        run.case(h(['bigq-status', case['hseed']]))
+    finally:
+        session.drop_session(sn); session.drop_session(sn + 'r')
+        repo.drop_rules(name)
+
 def wd_fired(run):
     return sum(n for k, n in run.inconclusive_why.items() if k.startswith('scheduler watchdog'))
 
@@ -483,12 +515,16 @@ def run(run, rng):
         for i in range(nbig):
             case = {'spec': big_spec(rng), 'hseed': 0, 'big': True}
             run.guard(case, check_stdin, seconds=600)
+    if run.shard[0] == 1 % run.shard[1]:
+        run.guard({'bigq_status': True, 'hseed': rng.getrandbits(32), 'n': 150000}, check_big_queue_status, seconds=900)
     if run.shard[0] == (0 if run.tier == 'quick' else run.shard[0]) and run.shard[0] < 4:
         run.guard({'spec': huge_spec(rng), 'hseed': rng.getrandbits(32), 'huge': True}, check_blocked_quit, run.tier, seconds=900)
 
 def replay(run, case):
     c = case['case']
-    if c.get('huge'):
+    if c.get('bigq_status'):
+        check_big_queue_status(run, c)
+    elif c.get('huge'):
         check_blocked_quit(run, c, 'thorough')
     elif c.get('big'):
         check_stdin(run, c)
